@@ -29,6 +29,14 @@ func (m *actionMethod) Name() string {
 	return m.Method.Name()
 }
 
+// Variadic reports whether the method's last parameter is variadic. Such a
+// parameter has a slice type and is bound like any other; the call must spread
+// the value ("v...") to compile.
+func (m *actionMethod) Variadic() bool {
+	sig, ok := m.Method.Type().(*gotypes.Signature)
+	return ok && sig.Variadic()
+}
+
 type generated string
 
 const (
